@@ -21,6 +21,15 @@ type SymStr struct{ E string }
 // SymReal: floating-point values are modelled as mathematical reals (no rounding, no Inf/NaN): stated model assumption.
 type SymReal struct{ E string }
 
+func isRuneSlice(t types.Type) bool {
+	sl, ok := t.Underlying().(*types.Slice)
+	if !ok {
+		return false
+	}
+	b, ok := sl.Elem().Underlying().(*types.Basic)
+	return ok && b.Kind() == types.Int32
+}
+
 func isFloatType(t types.Type) bool {
 	b, ok := t.Underlying().(*types.Basic)
 	return ok && b.Info()&types.IsFloat != 0
@@ -949,6 +958,25 @@ func (e *Engine) eval(f *frame, v ssa.Value) any {
 			case string, SymStr:
 				return BytesV{E: strE(sv)}
 			}
+		}
+		if isRuneSlice(x.Type()) || isRuneSlice(x.X.Type()) {
+			// strings are byte sequences in this engine; rune conversions coincide with that only on ASCII content.
+			// The ASCII case continues (bytes and runes are the same there); the other case is outside the encoding.
+			var ex string
+			switch sv := v.(type) {
+			case string, SymStr:
+				ex = strE(sv)
+			case BytesV:
+				ex = bytesE(sv)
+			}
+			if ex != "" {
+				ascii := SymBool{"(str.in_re " + ex + " (re.* (re.range \"\\u{0}\" \"\\u{7f}\")))"}
+				if !e.branch(ascii) {
+					e.inconclusive = append(e.inconclusive, "rune conversion of non-ASCII content at "+relPath(f.fn.Prog.Fset.Position(x.Pos()).String())+": UTF-8 decoding is not encoded")
+					panic(pathEnd{"UNSUPPORTED non-ASCII rune conversion"})
+				}
+			}
+			return v
 		}
 		if bt, ok := x.Type().Underlying().(*types.Basic); ok && bt.Info()&types.IsString != 0 {
 			if bv, ok := v.(BytesV); ok {
